@@ -33,7 +33,7 @@ ASSUMPTIONS = [
 
 
 def budget(tier):
-    return {"examples": 260 if tier == "quick" else 6000, "shards": 16, "wall": 150 if tier == "quick" else 3000}
+    return {"examples": 220 if tier == "quick" else 6000, "shards": 16, "wall": 150 if tier == "quick" else 3000}
 
 
 @st.composite
@@ -91,6 +91,22 @@ def post_process(g, listing):
         return nx.relabel_nodes(g, {v: pi[k] for k, v in enumerate(nodes)}, copy=True)
     if post == "recanon":
         return call("canonicalize(description)", canonicalize_molecule, g)
+    if post == "reuse":
+        # derive the molecule from the attribute dicts of an already built graph of its
+        # unlabelled parent (the dicts then carry the parent's derived entries), add the isotope
+        # / radical labels, and build the graph again through the public constructor
+        from ..lib import GA, graph_from_molecule
+
+        parent_attrs = {v: {k: x for k, x in d.items() if k not in (GA.MASS, GA.RAD, GA.INVARIANT_CODE)} for v, d in g.nodes(data=True)}
+        bonds = {(a, b): dict(d) for a, b, d in g.edges(data=True)}
+        parent = call("graph_from_molecule(parent)", graph_from_molecule, parent_attrs, bonds)
+        atom_attrs = {v: dict(d) for v, d in parent.nodes(data=True)}
+        for (v, d), (_, d0) in zip(atom_attrs.items(), g.nodes(data=True)):
+            for key in (GA.MASS, GA.RAD):
+                if d0.get(key):
+                    d[key] = d0[key]
+        bonds2 = {(a, b): dict(d) for a, b, d in parent.edges(data=True)}
+        return call("graph_from_molecule(derived)", graph_from_molecule, atom_attrs, bonds2)
     return g
 
 
